@@ -364,6 +364,27 @@ func (l *Lexer) backupChars(n int) {
 	l.column -= n
 }
 
+// Snapshot of the reading position of the lexer.
+type cursorState struct {
+	cursor int
+	column int
+	line   int
+}
+
+// Remembers the current reading position.
+func (l *Lexer) saveCursor() cursorState {
+	return cursorState{cursor: l.cursor, column: l.column, line: l.line}
+}
+
+// Rewinds the lexer back to a remembered reading position.
+// Unlike [backupChars] it is safe to use when the characters
+// that have been consumed since may be multi-byte or newlines.
+func (l *Lexer) restoreCursor(state cursorState) {
+	l.cursor = state.cursor
+	l.column = state.column
+	l.line = state.line
+}
+
 // Swallows characters until the given char is seen.
 func (l *Lexer) swallowUntil(char rune) bool {
 	for {
@@ -1253,6 +1274,7 @@ func (l *Lexer) quotedIdentifier(invalidMode mode, tokenType token.Type, untermi
 			return l.tokenWithValue(tokenType, lexemeBuff.String())
 		}
 
+		escapeStart := l.saveCursor()
 		char, ok := l.advanceChar()
 		if !ok {
 			return l.lexError(unterminatedError)
@@ -1333,13 +1355,11 @@ func (l *Lexer) quotedIdentifier(invalidMode mode, tokenType token.Type, untermi
 				return l.lexError(invalidHexEscapeError)
 			}
 			lexemeBuff.WriteByte(byte(value))
-		case '\n':
-			l.incrementLine()
-			fallthrough
 		default:
+			// the escaped character may be multi-byte or a newline
 			l.pushMode(invalidMode)
 			l.pushMode(invalidEscapeMode)
-			l.backupChars(2)
+			l.restoreCursor(escapeStart)
 			return l.tokenWithValue(tokenType, lexemeBuff.String())
 		}
 	}
@@ -1534,6 +1554,9 @@ func (l *Lexer) scanInvalidEscape() *token.Token {
 
 	char, _ = l.advanceChar()
 	lexemeBuff.WriteRune(char)
+	if char == '\n' {
+		l.incrementLine()
+	}
 
 	return l.lexError(fmt.Sprintf("invalid escape sequence `%s` in string literal", lexemeBuff.String()))
 }
@@ -1560,6 +1583,7 @@ func (l *Lexer) scanStringLiteralContent() *token.Token {
 			return l.tokenWithValue(token.STRING_CONTENT, lexemeBuff.String())
 		}
 
+		escapeStart := l.saveCursor()
 		char, ok := l.advanceChar()
 		if !ok {
 			return l.lexError(unterminatedStringError)
@@ -1637,12 +1661,10 @@ func (l *Lexer) scanStringLiteralContent() *token.Token {
 				return l.lexError(invalidHexEscapeError)
 			}
 			lexemeBuff.WriteByte(byte(value))
-		case '\n':
-			l.incrementLine()
-			fallthrough
 		default:
+			// the escaped character may be multi-byte or a newline
 			l.pushMode(invalidEscapeMode)
-			l.backupChars(2)
+			l.restoreCursor(escapeStart)
 			return l.tokenWithValue(token.STRING_CONTENT, lexemeBuff.String())
 		}
 	}
